@@ -298,7 +298,7 @@ fn run_shuttle(plan: &Plan, out: &mut Outcome) -> (Vec<Vec<CallOut>>, Vec<CallOu
     let sentinel = plan.sentinel.clone();
     let s2 = slots.clone();
     let ss2 = sentinel_slots.clone();
-    seams::set_in_shuttle(true);
+    seams::set_mode(seams::Mode::Shuttle);
     let r = std::panic::catch_unwind(std::panic::AssertUnwindSafe(|| {
         shuttle::Runner::new(sched, cfg).run(move || {
             seams::reset_shadow();
@@ -323,7 +323,7 @@ fn run_shuttle(plan: &Plan, out: &mut Outcome) -> (Vec<Vec<CallOut>>, Vec<CallOu
             }
         });
     }));
-    seams::set_in_shuttle(false);
+    seams::set_mode(seams::Mode::Sequential);
     seams::leak_shadow();
     if r.is_err() {
         out.noreturn = Some(seams::last_panic());
@@ -352,6 +352,91 @@ fn run_shuttle(plan: &Plan, out: &mut Outcome) -> (Vec<Vec<CallOut>>, Vec<CallOu
     (calls, sent)
 }
 
+/// Interleaved execution on real OS threads under the baton scheduler (threads.rs).
+fn run_threads(plan: &Plan, out: &mut Outcome) -> (Vec<Vec<CallOut>>, Vec<CallOut>) {
+    use crate::threads;
+    let slots: Slots = Arc::new(Mutex::new(
+        plan.threads.iter().map(|c| vec![None; c.len()]).collect(),
+    ));
+    seams::set_mode(seams::Mode::Threads);
+    threads::start(&plan.sched, plan.threads.len());
+    let mut handles = Vec::new();
+    for (t, calls) in plan.threads.iter().enumerate() {
+        let calls = calls.clone();
+        let s3 = slots.clone();
+        let h = std::thread::Builder::new()
+            .stack_size(STACK)
+            .spawn(move || {
+                threads::thread_start(t + 1);
+                let r = std::panic::catch_unwind(std::panic::AssertUnwindSafe(|| {
+                    let c = seams::canary();
+                    state().ev(&format!("t{} start canary {c}", t + 1));
+                    for (k, c) in calls.iter().enumerate() {
+                        threads::sched_point();
+                        let o = run_call(t + 1, k, c);
+                        s3.lock().unwrap()[t][k] = Some(o);
+                    }
+                }));
+                if r.is_err() {
+                    state().ev(&format!("t{} HARNESS caller thread panicked outside a call", t + 1));
+                }
+                threads::thread_finish();
+                r.is_ok()
+            })
+            .expect("spawn caller thread");
+        handles.push(h);
+    }
+    threads::coordinate();
+    let stats = threads::stop();
+    seams::set_mode(seams::Mode::Sequential);
+    out.steps = stats.steps;
+    out.switches = stats.switches;
+    out.schedule = stats.rle;
+    match stats.dead {
+        Some(msg) => {
+            // the callers of a dead execution stay parked; the process exits soon
+            out.noreturn = Some(msg);
+            drop(handles);
+        }
+        None => {
+            for h in handles {
+                if !h.join().unwrap_or(false) {
+                    out.harness_error = Some(format!(
+                        "a caller thread panicked outside a call: {}",
+                        seams::last_panic()
+                    ));
+                }
+            }
+        }
+    }
+    state().ev("joined");
+    let fill = |o: Option<CallOut>| {
+        o.unwrap_or(CallOut {
+            obs: Obs::noreturn("call did not return".into()),
+            records: 0,
+            fault_fired: false,
+            overlapped: false,
+        })
+    };
+    let calls: Vec<Vec<CallOut>> = slots
+        .lock()
+        .unwrap()
+        .iter()
+        .map(|v| v.iter().cloned().map(fill).collect())
+        .collect();
+    let sentinel = if out.noreturn.is_some() {
+        plan.sentinel.iter().map(|_| fill(None)).collect()
+    } else {
+        seams::set_seq_task(0);
+        plan.sentinel
+            .iter()
+            .enumerate()
+            .map(|(k, c)| run_call(0, k, c))
+            .collect()
+    };
+    (calls, sentinel)
+}
+
 /// Run the plan in this process. The process must be pristine (freshly forked
 /// from a worker that never called into prqlc).
 pub fn run_plan_here(plan: &Plan) -> Outcome {
@@ -378,7 +463,9 @@ pub fn run_plan_here(plan: &Plan) -> Outcome {
             let mut out = Outcome::default();
             out.canary = seams::canary();
             state().ev(&format!("canary {}", out.canary));
-            let (calls, sentinel) = if plan2.shuttle {
+            let (calls, sentinel) = if plan2.shuttle && plan2.engine == "threads" {
+                run_threads(&plan2, &mut out)
+            } else if plan2.shuttle {
                 run_shuttle(&plan2, &mut out)
             } else {
                 run_sequential(&plan2)
